@@ -79,19 +79,27 @@ def contracts():
             for p, q in ((x, y), (y, x)):
                 if p.term[0] == 'F' and p.term[1] == q.term:
                     return b_not(w.chg_of(q))
+            return z3.Bool('eq_derived_%d' % (abs(hash(repr((x.term, y.term)))) % 100000))
         raise E.EncoderGap('comparison of unrelated strings %r / %r' % (x, y))
     C.ostr_eq = ostr_eq
     return C
 
 
 class CliWorld(World):
+    def _derived(self, content, what):
+        # the text handed to the formatter is not the text that was read but something computed from it:
+        # nothing is known about it any more (fresh predicates), and the deviation itself is recorded
+        if 'formatter-input-is-not-the-text-read' not in self.deviations:
+            self.deviations.append('formatter-input-is-not-the-text-read')
+        return z3.Bool('%s_derived_%d' % (what, abs(hash(repr(content.term))) % 100000))
+
     def err_of(self, content):
         t = content.term
         if t[0] == 'c':
             return self.slots[t[1]]['err']
         if t[0] == 'F':
             return False          # assumption (C04): formatter output is well-formed
-        raise E.EncoderGap('erroneous() of %r' % (content,))
+        return self._derived(content, 'err')
 
     def chg_of(self, content):
         t = content.term
@@ -99,7 +107,7 @@ class CliWorld(World):
             return self.slots[t[1]]['chg']
         if t[0] == 'F':
             return False          # assumption (C03): F(F(c)) == F(c)
-        raise E.EncoderGap('changed() of %r' % (content,))
+        return self._derived(content, 'chg')
 
 
 def file_slot(w, i, parent=None):
@@ -153,6 +161,7 @@ def build_walk_world(ctx, w, parents):
         else:
             s['isfile'] = z3.Bool('isfile%d' % i)
             s['isdir'] = z3.Bool('isdir%d' % i)
+            s['linkfile'] = z3.Bool('linkfile%d' % i)     # neither file nor directory: a symbolic link to a regular file (read/written through)
             ctx.assume(z3.Not(z3.And(s['isfile'], s['isdir'])))
         ctx.assume(z3.Implies(s['ext_typ'], s['hasext']))
     w.cwd = 0
@@ -247,12 +256,14 @@ def explore(S, props, K, walkK, levels=(False, False)):
                      parents=list(parents) if parents else None, slots={})
             for i, s in w.slots.items():
                 e = {}
-                for k in ('readable', 'err', 'chg', 'wfail', 'isfile', 'isdir', 'ext_typ', 'hasext', 'utf8name'):
+                for k in ('readable', 'err', 'chg', 'wfail', 'isfile', 'isdir', 'ext_typ', 'hasext', 'utf8name', 'linkfile'):
                     if k in s:
                         e[k] = model_bool(mdl, s[k])
                 if 'name' in s:
                     e['name0'] = chr(model_int(mdl, s['name'].chars[0]))
                 d['slots'][str(i)] = e
+            d['path_order'] = {'%s<%s' % k: model_bool(mdl, v) for k, v in w.path_order.items()}
+            d['deviations'] = list(w.deviations)
             return d
         return describe
 
@@ -329,6 +340,7 @@ def explore(S, props, K, walkK, levels=(False, False)):
             ctx.witness('C15 failure and later success', b_and(on, any_io, b_or(*[e['write'] for e in expected.values()])))
         # ---- C16 ---------------------------------------------------------------------------------------------
         if want16:
+            ctx.must_hold(not w.deviations, 'C16:formatter-input-is-not-the-text-read', describe)
             ctx.must_hold(b_and(*cfg_ok), 'C16:options-not-mapped-to-config', describe)
             if mode in ('list', 'stdin'):
                 on = b_and(b_not(check), b_not(inplace))
@@ -550,13 +562,33 @@ def replay_native(S, info):
                 elif e.get('isfile'):
                     files[i] = content_for(S, e, info)
                     open(paths[i], 'wb').write(files[i])
+                elif e.get('linkfile'):
+                    # a symbolic link to a regular file outside the tree: its target must stay untouched
+                    tgt = os.path.join(tmp, 'outside-target-%d.txt' % i)
+                    files[1000 + i] = content_for(S, e, info)
+                    open(tgt, 'wb').write(files[1000 + i])
+                    paths[1000 + i] = tgt
+                    os.symlink(tgt, paths[i])
                 else:
                     os.symlink('/nonexistent-target', paths[i])
             cmd += ['format-all', paths[0]]
         elif mode == 'list':
-            for i in sorted(int(x) for x in slots if int(x) < 100):
+            ids = sorted(int(x) for x in slots if int(x) < 100)
+            # file names follow the lexicographic order the model chose for the paths
+            import functools
+
+            def cmp(a, b):
+                lo, hi = sorted((a, b))
+                v = (info.get('path_order') or {}).get('%s<%s' % (lo, hi))
+                if v is None:
+                    return -1 if a < b else 1
+                first = lo if v else hi
+                return -1 if a == first else 1
+            ranked = sorted(ids, key=functools.cmp_to_key(cmp))
+            rank = {sid: r for r, sid in enumerate(ranked)}
+            for i in ids:
                 e = slots[str(i)]
-                paths[i] = os.path.join(tmp, 'f%d.typ' % i)
+                paths[i] = os.path.join(tmp, '%s%d.typ' % ('abcdefgh'[rank[i]], i))
                 files[i] = content_for(S, e, info)
                 open(paths[i], 'wb').write(files[i])
                 cmd.append(paths[i])
@@ -598,12 +630,14 @@ def confirm(S, prop, label, info):
     violated = []
     ids = sorted(files)
     if mode == 'walk':
-        elig = {i: eligible_concrete(info, i) for i in ids}
+        elig = {i: (eligible_concrete(info, i) if i < 1000 else False) for i in ids}
     else:
         elig = {i: True for i in ids}
     fmt = lib_format(S, RICH, info)
-    chg = {i: elig[i] and slots[str(i)].get('readable', True) and not slots[str(i)].get('err') and slots[str(i)].get('chg') for i in ids}
-    io = {i: elig[i] and not slots[str(i)].get('readable', True) for i in ids}
+    def sl(i):
+        return slots[str(i if i < 1000 else i - 1000)]
+    chg = {i: elig[i] and sl(i).get('readable', True) and not sl(i).get('err') and sl(i).get('chg') for i in ids}
+    io = {i: elig[i] and not sl(i).get('readable', True) for i in ids}
     if mode == 'stdin':
         e = slots['100']
         chg = {100: e.get('readable', True) and not e.get('err') and e.get('chg')}
@@ -632,7 +666,7 @@ def confirm(S, prop, label, info):
             violated.append('C15:spurious-failure-status')
     else:
         exp_out = ''
-        for i in (ids if mode == 'list' else [100]):
+        for i in ([x for x in sorted(files) if x < 100] if mode == 'list' else [100]):
             e = slots[str(i)]
             if not e.get('readable', True):
                 continue
